@@ -91,7 +91,22 @@ func execDecodeCase(c *Case) []ModeResult {
 	b := guard(func() Observation {
 		// a well-formed initializer follows: the outcome of the first must not depend on it
 		follower := &onnx.TensorProto{Name: "z_follower", DataType: 1, Dims: []int64{2}, FloatData: []float32{1, 2}}
-		g := &onnx.GraphProto{Name: "g", Initializer: []*onnx.TensorProto{mkProtoX(x, "w"), follower}, Output: []*onnx.ValueInfoProto{{Name: "w"}}}
+		inits := []*onnx.TensorProto{mkProtoX(x, "w"), follower}
+		// a twin with the same payload and element type but a flat shape comes first: every initializer is decoded against its OWN dims
+		twin := mkProtoX(x, "a_twin")
+		n := int64(len(x.Vals))
+		if x.Enc == "raw" {
+			if w := map[int32]int{1: 4, 2: 1, 3: 1, 4: 2, 5: 2, 6: 4, 7: 8, 9: 1, 11: 8, 12: 4, 13: 8}[x.Code]; w > 0 && len(x.Raw)%w == 0 {
+				n = int64(len(x.Raw) / w)
+			} else {
+				n = -1
+			}
+		}
+		if n >= 1 && len(x.BigDims) == 0 {
+			twin.Dims = []int64{n}
+			inits = append([]*onnx.TensorProto{twin}, inits...)
+		}
+		g := &onnx.GraphProto{Name: "g", Initializer: inits, Output: []*onnx.ValueInfoProto{{Name: "w"}}}
 		bytesModel, err := proto.Marshal(mkModel(g, 13))
 		if err != nil {
 			return Observation{Kind: "harness", Note: err.Error()}
